@@ -53,7 +53,7 @@ def oracle(line: str, obs: Obs):
             now += int(t[1])
         if t[0] in ("req",):
             simple = False
-        if t[0] == "stop":
+        if t[0] in ("stop", "stopin"):
             stopping = True
         before_p = {n: dict(v) for n, v in pstate.items()}
         before_c = dict(cstate)
@@ -140,7 +140,7 @@ def oracle(line: str, obs: Obs):
                     fails.append({"what": f"peer {n} dialled although the reconnect policy forbids it (not persistent / wait not "
                                           f"elapsed / disconnected by DPR / already connected)", "event": ev[:200],
                                   "real": f"before={b} dialled={got}"})
-        if stopping and dialled and t[0] != "stop":
+        if stopping and dialled and t[0] != "stop":           # (also in the pass the I/O loop finishes after a forced stop: `stopin`)
             fails.append({"what": "peer dialled while the node is stopping", "event": ev[:200], "real": str(dialled)})
         # never two live self-initiated connections to one peer
         live_out = {}
@@ -247,6 +247,19 @@ def scenarios(rng: random.Random, tier: str):
         # (the default selection prefers the peer that has sent the fewest requests: the others send some watchdogs first)
         chat = " | ".join(f"rx {k} " + nodegen.dwr(n(), n(), f"peer{k + 1}.x") for k in (0, 1, 2) if k != leaver for _ in range(3))
         out.append(pre3 + f" | {chat} | {rq} | rx {leaver} " + nodegen.dpr(n(), n(), f"peer{leaver + 1}.x") + f" | {rq} | {rq} | {rq}")
+    # requests of the peer still unanswered by the application when its DPR arrives: the DPA is 2001 all the same
+    for k in (1, 2):
+        pend = " | ".join("rx 0 " + nodegen.ccr(n(), n(), "peer1.x") for _ in range(k))
+        out.append(cfg_line(1, 0, 5) + " | start ok,ok | rx 0 " + nodegen.cea(2001, "peer1.x", n(), n()) + f" | {pend} | rx 0 " +
+                   nodegen.dpr(n(), n()) + " | eof 0 | adv 5 | adv 5")
+        out.append(cfg_line(0, 0, 5) + " | start | acc | rx 0 " + nodegen.cer("peer1.x", "4", n(), n()) + f" | {pend} | rx 0 " +
+                   nodegen.dpr(n(), n()) + " | tick")
+    # a forced stop arrives while the I/O loop sleeps; when it wakes up (dt seconds later) the reconnect wait of a lost
+    # persistent peer has elapsed: the pass it still finishes dials nobody
+    for wait, dt in ((3, 1), (3, 2), (2, 5)):
+        out.append(cfg_line(1, 1, wait) + " | start ok,ok | rx 0 " + nodegen.cea(2001, "peer1.x", n(), n()) +
+                   f" | eof 0 | adv {wait - 1} | stopin 1 {dt}")
+        out.append(cfg_line(1, 0, wait) + f" | start fail,fail | adv {wait - 1} | stopin 1 {dt}")
     # DPR then request must not be routed over that connection
     out.append(cfg_line(1, 0, 5) + " | start ok,ok | rx 0 " + nodegen.cea(2001, "peer1.x", n(), n()) + " | rx 0 " + nodegen.dpr(n(), n()) +
                " | req 0 " + nodegen.ccr(0, 0, "node.local") + " 1 | eof 0 | adv 5 | adv 5")
